@@ -1,4 +1,5 @@
 """C09 - SAN output is standard; SAN input resolves only to the legal move it describes."""
+from . import shared
 from . import sanrules, outcomerules, textrules, attackrules
 
 
@@ -32,6 +33,7 @@ def run(ctx):
     ]
     attackrules.prechecker_rule(ctx, facts, "S1p")
     attackrules.checker_rule(ctx, facts, "S1c")
+    attackrules.pinned_rule(ctx, facts, "S1n")
     outcomerules.has_legal_moves_rule(ctx, facts, "S5")
     ctx.decided += [
         "S6 the text level: the model of Display for san::Move, evaluated on castling, pawn moves and captures (promotions on the last ranks), "
